@@ -736,7 +736,10 @@ func (c *Client) Start(msg *Message, handler Handler) error {
 			return err
 		}
 		if err := c.a.Start(msg.TransactionID, d); err != nil {
-			c.delete(msg.TransactionID)
+			if !c.delete(msg.TransactionID) {
+				// Transaction is completed already, see below.
+				return nil
+			}
 
 			return err
 		}
